@@ -120,6 +120,62 @@ def accounting(v, prog_id, scope, p, c, prop="c03"):
     return n
 
 
+def _hms(s):
+    """Own reading of a TZ time field '[-]h[:mm[:ss]]' in seconds (None when not of that shape)."""
+    import re
+    m = re.fullmatch(r'(-?)(\d+)(?::(\d+))?(?::(\d+))?', s or '')
+    if not m:
+        return None
+    v = int(m.group(2)) * 3600 + int(m.group(3) or 0) * 60 + int(m.group(4) or 0)
+    return -v if m.group(1) else v
+
+
+def alterations_noted(v, prog_id, scope, c, prop="c03"):
+    """No input is silently altered: every value the generators will emit that differs from what the source line says
+    (UNTIL / STDOFF / fixed SAVE of an era, AT / SAVE of a rule) must carry a note naming that source value.
+    The emitted value is the '...Truncated' field the generators read; the source value is re-read here from the
+    raw string the extractor kept, not from the compiler's own parsed field."""
+    tzdb = c.tzdb
+    n = 0
+
+    def need(coll, name, raw, word, kind, extra):
+        reasons = tzdb[coll].get(name) or []
+        if not any(word in r and 'truncated' in r and ("'%s'" % raw) in r for r in reasons):
+            v.violation("%s:altered-without-note:%s" % (prop, kind),
+                        "an emitted value differs from the source line and no note for that zone/policy names it",
+                        {"program": prog_id, "scope": scope, "name": name, "source_value": raw, "notes_present": sorted(reasons)[:6], **extra})
+    for z, eras in tzdb['zones_map'].items():
+        for e in eras:
+            n += 1
+            raw = _hms(e.get('untilTime'))
+            if raw is not None and 'untilSecondsTruncated' in e and e['untilSecondsTruncated'] != raw:
+                need('notable_zones', z, e['untilTime'], 'UNTIL time', 'until', {"emitted": e['untilSecondsTruncated'], "source_seconds": raw})
+            raw = _hms(e.get('offsetString'))
+            if raw is not None and 'offsetSecondsTruncated' in e and e['offsetSecondsTruncated'] != raw:
+                need('notable_zones', z, e['offsetString'], 'STDOFF', 'stdoff', {"emitted": e['offsetSecondsTruncated'], "source_seconds": raw})
+            if e.get('rulesDeltaSeconds') is not None and e.get('rulesDeltaSecondsTruncated') != e.get('rulesDeltaSeconds'):
+                if not any('RULES delta offset' in r and 'truncated' in r for r in tzdb['notable_zones'].get(z) or []):
+                    v.violation(prop + ":altered-without-note:fixed-save", "a fixed SAVE in the RULES column was truncated without a note",
+                                {"program": prog_id, "scope": scope, "name": z, "seconds": e.get('rulesDeltaSeconds'),
+                                 "emitted": e.get('rulesDeltaSecondsTruncated')})
+    users = {}
+    for z, eras in tzdb['zones_map'].items():
+        for e in eras:
+            users.setdefault(e.get('rules'), set()).add(z)
+    for pol, rules in tzdb['rules_map'].items():
+        for r in rules:
+            n += 1
+            raw = _hms(r.get('atTime'))
+            if raw is not None and 'atSecondsTruncated' in r and r['atSecondsTruncated'] != raw:
+                need('notable_policies', pol, r['atTime'], 'AT time', 'at', {"emitted": r['atSecondsTruncated'], "source_seconds": raw})
+                for z in sorted(users.get(pol, ())):
+                    need('notable_zones', z, r['atTime'], 'AT time', 'at-zone-note', {"policy": pol})
+            raw = _hms(r.get('deltaOffset'))
+            if raw is not None and 'deltaSecondsTruncated' in r and r['deltaSecondsTruncated'] != raw:
+                need('notable_policies', pol, r['deltaOffset'], 'deltaOffset', 'save', {"emitted": r['deltaSecondsTruncated'], "source_seconds": raw})
+    return n
+
+
 def basic_era_start_mechanism(w, scope, p, prop):
     """Known mechanism (see known_findings.json): BasicZoneProcessor starts an era that begins on Jan 1 with a
     carried-over rule at that rule's ON/AT resolved in January instead of at the era start.  Only mismatches of a
@@ -166,6 +222,7 @@ def check_program(v, prog_id, p, workdir, scopes=("extended", "basic"), targets=
                         {"program": prog_id, "scope": scope, **f})
         st["accounted_names"] = st.get("accounted_names", 0) + accounting(v, prog_id, scope, p, c, prop)
         st["compilations"] = st.get("compilations", 0) + 1
+        st["values_compared_with_source_line"] = st.get("values_compared_with_source_line", 0) + alterations_noted(v, prog_id, scope, c, prop)
         emitted = sorted(c.tzdb['zones_map'])
         judged = [z for z in emitted if not truncation_noted(c.tzdb, z)]
         st["zones_emitted"] = st.get("zones_emitted", 0) + len(emitted)
